@@ -92,6 +92,9 @@ func ParseContractFile(path, pkgPath string) ([]*Contract, error) {
 	}
 	for ln, line := range strings.Split(string(b), "\n") {
 		t := strings.TrimSpace(line)
+		if strings.HasPrefix(t, "// @") { // gofmt rewrites //@ in doc-comment position
+			t = "//@" + t[4:]
+		}
 		if !strings.HasPrefix(t, "//@") {
 			continue
 		}
